@@ -326,6 +326,15 @@ impl Interp {
                     None => NAME_POOL[*i as usize % NAME_POOL.len()].to_string(),
                 }
             }
+            NameSel::ExistingDir(i) => {
+                let all = self.live_children(dir);
+                let dirs: Vec<NodeId> = all.iter().copied().filter(|c| self.nodes[*c].is_dir).collect();
+                let kids = if dirs.is_empty() { all } else { dirs };
+                match Self::pick(&kids, *i) {
+                    Some(k) => names::display_name(&self.nodes[kids[k]].name),
+                    None => NAME_POOL[*i as usize % NAME_POOL.len()].to_string(),
+                }
+            }
             NameSel::Pool(i) => NAME_POOL[*i as usize % NAME_POOL.len()].to_string(),
             NameSel::Deleted(i) => {
                 let d = &self.nodes[dir].deleted_names;
